@@ -177,6 +177,10 @@ func (w *world) startQuery() bool {
 			case "panic-nil":
 				var v interface{}
 				panic(v)
+			case "collection-panic-marshal":
+				qr.Collection([]interface{}{1, panicMarshal{}})
+			case "error-panic-marshal":
+				qr.Error(&res.Error{Code: "custom.err", Message: "m", Data: panicMarshal{}})
 			case "twice":
 				qr.NotFound()
 				qr.NotFound()
@@ -300,7 +304,12 @@ func replayBehaviour(seed int64, steps []sched.Step, src string) rec {
 	return w.record(ids, false, true, src)
 }
 
-var behaviours = []string{"", "collection", "events", "error", "notfound", "panic", "panic-err", "twice", "reply-panic", "events2", "events-notfound", "events-collection", "events-panic", "panic-nil", "", "events"}
+var behaviours = []string{"", "collection", "events", "error", "notfound", "panic", "panic-err", "twice", "reply-panic", "events2", "events-notfound", "events-collection", "events-panic", "panic-nil", "", "events", "collection-panic-marshal", "error-panic-marshal"}
+
+// panicMarshal is a value whose encoding panics (a nil dereference in a custom marshaller, say).
+type panicMarshal struct{}
+
+func (panicMarshal) MarshalJSON() ([]byte, error) { panic("marshaller panicked") }
 
 // replyKind abstracts a query response: events:<n> | collection | model | error:<code> | malformed
 func replyKind(data []byte) string {
